@@ -262,3 +262,60 @@ func H09Num() {
 		}
 	}
 }
+
+// H09NumTwo: a two-field projection whose first field is ordered numerically and whose
+// values can tie numerically while differing as strings ("1" and "1.0", "1e3" and "1k").
+// The first field in which two keys differ decides: numerically if it can, bytewise
+// otherwise; later fields are consulted only when earlier ones are identical. Strict total
+// order on distinct keys.
+func H09NumTwo() {
+	var pp ProjectionParser
+	proj, err := pp.Parse("a@num,b@alpha", nil)
+	if err != nil {
+		panic(err)
+	}
+	as := []string{"1", "1.0", "1e3", "1k"}
+	av := []float64{1, 1, 1000, 1000}
+	bs := []string{"x", "y"}
+	n := 3
+	ai, bi := make([]int, n), make([]int, n)
+	var ks []Key
+	for i := 0; i < n; i++ {
+		ai[i], bi[i] = vndChoice("a", len(as)), vndChoice("b", len(bs))
+		res := &benchfmt.Result{Name: benchfmt.Name("B"), Iters: 1}
+		res.Config = append(res.Config, benchfmt.Config{Key: "a", Value: []byte(as[ai[i]]), File: true})
+		res.Config = append(res.Config, benchfmt.Config{Key: "b", Value: []byte(bs[bi[i]]), File: true})
+		ks = append(ks, proj.Project(res))
+	}
+	vndReach("h09:numtwo")
+	want := func(i, j int) bool {
+		if ai[i] != ai[j] {
+			if av[ai[i]] != av[ai[j]] {
+				return av[ai[i]] < av[ai[j]]
+			}
+			return as[ai[i]] < as[ai[j]]
+		}
+		return bs[bi[i]] < bs[bi[j]]
+	}
+	for i := 0; i < n; i++ {
+		for j := 0; j < n; j++ {
+			if ks[i] == ks[j] {
+				vndAssert(!ks[i].Less(ks[j]), "num-irreflexive")
+				continue
+			}
+			l12, l21 := ks[i].Less(ks[j]), ks[j].Less(ks[i])
+			vndAssert(l12 != l21, "num-total-on-distinct-keys")
+			vndAssert(l12 == want(i, j), "first-differing-field-decides")
+			for l := 0; l < n; l++ {
+				if l12 && ks[j].Less(ks[l]) {
+					vndAssert(ks[i].Less(ks[l]), "num-transitive")
+				}
+			}
+		}
+	}
+	sorted := append([]Key(nil), ks...)
+	SortKeys(sorted)
+	for i := 0; i+1 < n; i++ {
+		vndAssert(!sorted[i+1].Less(sorted[i]), "sorted-keys-are-sorted")
+	}
+}
